@@ -156,6 +156,33 @@ def retainList {σ : Type} (f : σ → Nat → σ × Bool) : σ → List Nat →
     let o := retainList f r.1 xs
     (if r.2 then x :: o.1 else o.1, o.2)
 
+/-! ### the closures of the in-place `&=` / `-=` with the state the Rust has: the index `i` into `rhs` (fidelity audit)
+
+`Arr.andAssign` / `Arr.subAssign` (and `andClosure` / `subClosure` of `UnsafeLemmas`) carry the not yet galloped-over
+*suffix* `rhs[i..]`; the Rust closure captures `let mut i = 0` and the whole `rhs`.  `UnsafeLemmas.retain_andIdx` /
+`retain_subIdx`: the index-level `retain` loop with these closures, from `i = 0`, is `Arr.andAssign` / `Arr.subAssign`
+(unconditionally, on arbitrary vectors). -/
+
+
+/-- `iter.position(p)`: index of the first element satisfying `p` -/
+def position (p : Nat → Bool) : List Nat → Option Nat
+  | [] => none
+  | y :: ys => if p y then some 0 else (position p ys).map (· + 1)
+
+/-- the closure of `bitand_assign(&Self)` (array_store/mod.rs:388-391) with the state the Rust has: the index `i`
+    into `rhs` -/
+def andClosureIdx (rhs : List Nat) (i : Nat) (x : Nat) : Nat × Bool :=
+  -- i += rhs.iter().skip(i).position(|y| *y >= x).unwrap_or(rhs.vec.len());
+  let i' := i + ((position (fun y => decide (y ≥ x)) (rhs.drop i)).getD rhs.length)
+  -- rhs.vec.get(i).map_or(false, |y| x == *y)
+  (i', match rhs[i']? with | some y => x == y | none => false)
+
+/-- the closure of `sub_assign(&Self)` (array_store/mod.rs:427-430) -/
+def subClosureIdx (rhs : List Nat) (i : Nat) (x : Nat) : Nat × Bool :=
+  let i' := i + ((position (fun y => decide (y ≥ x)) (rhs.drop i)).getD rhs.length)
+  -- rhs.vec.get(i).map_or(true, |y| x != *y)
+  (i', match rhs[i']? with | some y => x != y | none => true)
+
 /-! ## `inherent.rs:686`: `rank` (site 0)
 
 `self.containers.binary_search_by_key(&key, |c| c.key)` runs on a directory whose keys may be unsorted or
